@@ -345,6 +345,10 @@ class Engine:
                     st[('le', a, b)] = 1
                 if op in ('>', '>=', '=='):
                     st[('le', b, a)] = 1
+                if op == '<':
+                    st[('lt', a, b)] = 1       # strict: b[-1] lies inside [a, b)
+                if op == '>':
+                    st[('lt', b, a)] = 1
                 return st
         if k == 'BinaryOperator' and e.get('opcode') in ('==', '!='):
             ks = tu.kids(e)
@@ -410,31 +414,48 @@ class Engine:
     @staticmethod
     def le_copy(st, dst, src):
         """dst := src  (dst == src): dst inherits every ordering fact of src"""
-        for k in [k for k in st if isinstance(k, tuple) and k[0] == 'le' and (k[1] == dst or k[2] == dst)]:
+        for k in [k for k in st if isinstance(k, tuple) and k[0] in ('le', 'lt') and (k[1] == dst or k[2] == dst)]:
             del st[k]
-        for k in [k for k in st if isinstance(k, tuple) and k[0] == 'le']:
+        for k in [k for k in st if isinstance(k, tuple) and k[0] in ('le', 'lt')]:
             if k[1] == src:
-                st[('le', dst, k[2])] = 1
+                st[(k[0], dst, k[2])] = 1
             if k[2] == src:
-                st[('le', k[1], dst)] = 1
+                st[(k[0], k[1], dst)] = 1
         st[('le', dst, src)] = 1
         st[('le', src, dst)] = 1
 
     @staticmethod
     def le_forward(st, v):
-        """v moved forward: facts v <= x are lost, x <= v stay"""
+        """v moved forward by one or more: facts v <= x are lost (v < x weakens to v <= x when the step is one byte: the caller says so
+        with `one`), x <= v stay"""
+        strict = [k for k in st if isinstance(k, tuple) and k[0] == 'lt' and k[1] == v and k[2] != v]
         for k in [k for k in st if isinstance(k, tuple) and k[0] == 'le' and k[1] == v and k[2] != v]:
+            del st[k]
+        for k in strict:
             del st[k]
 
     @staticmethod
     def le_backward(st, v):
+        """v moved backward by one: x <= v is lost unless x < v was known (then x <= v still holds); v <= x stay"""
+        strict = {k[1] for k in st if isinstance(k, tuple) and k[0] == 'lt' and k[2] == v and k[1] != v}
         for k in [k for k in st if isinstance(k, tuple) and k[0] == 'le' and k[2] == v and k[1] != v]:
-            del st[k]
+            if k[1] not in strict:
+                del st[k]
+        for x in strict:
+            del st[('lt', x, v)]
 
     @staticmethod
     def le_forget(st, v):
-        for k in [k for k in st if isinstance(k, tuple) and k[0] == 'le' and (k[1] == v or k[2] == v)]:
+        for k in [k for k in st if isinstance(k, tuple) and k[0] in ('le', 'lt') and (k[1] == v or k[2] == v)]:
             del st[k]
+
+    @staticmethod
+    def strictly_after(st, v):
+        """a tracked cursor x with x < v: v[-1] lies inside [x, v), i.e. inside the buffer"""
+        for k in st:
+            if isinstance(k, tuple) and k[0] == 'lt' and k[2] == v and k[1] != v:
+                return k[1]
+        return None
 
     def need_le(self, f, st, a, b, node, what):
         """require a <= b for two tracked cursors"""
@@ -526,7 +547,7 @@ class Engine:
                             eng.finding('R-C16-1', f, 'read-past-nul:%s[%d]' % (nm, j),
                                         'reads `%s[%d]` although only %d leading byte(s) are known to be non-NUL: if an '
                                         'earlier byte is the terminating NUL this reads outside the buffer' % (nm, j, K), n)
-                        elif j == -1 and not A:
+                        elif j == -1 and not A and eng.strictly_after(st, v) is None:
                             eng.finding('R-C16-1', f, 'read-before-buffer:%s[-1]' % nm,
                                         'reads `%s[-1]` although no non-whitespace byte is known to precede the cursor: the '
                                         'backward scan can leave the buffer' % nm, n)
@@ -545,7 +566,7 @@ class Engine:
                             st[('c', v)] = (max(K - 1, 0), 1 if (A or N0) else 0, 0, 0, ())
                             eng.le_forward(st, v)
                         else:
-                            if not A:
+                            if not A and eng.strictly_after(st, v) is None:
                                 eng.finding('R-C16-1', f, 'retreat-before-buffer:%s' % nm,
                                             '`--%s` is executed although no non-whitespace byte is known to precede the '
                                             'cursor: it can move before the buffer' % nm, n)
@@ -840,7 +861,8 @@ class Engine:
                 if adv:
                     self.le_forward(s2, v)
                 if pid in exd.get('$dec', ()):
-                    self.le_backward(s2, v)
+                    for k_ in [k_ for k_ in s2 if isinstance(k_, tuple) and k_[0] in ('le', 'lt') and k_[2] == v and k_[1] != v]:
+                        del s2[k_]        # moved backward by an unknown number of bytes
             if adv:
                 moved(s2)
             if isinstance(ret, bool):
@@ -1621,6 +1643,12 @@ def check_positive_examples(ctx):
     want = {'copy_off_by_one': {'ok', 'bad'}, 'copy_ok': {'ok'}, 'copy_heap_short': {'ok', 'bad'}}
     if verdicts != want:
         ctx.broken('R-C16-9 self-check: verdicts on drivers/c16_positive.cpp are %s, expected %s' % (verdicts, want))
+    tv = {}
+    for f, lp, d, nm, cond in trim_loops(tu, [f for f in tu.functions.values() if f['q'].startswith('rkverif_c16::trim_')]):
+        tv[f['q'].split('::')[-1]] = trim_verdict(tu, d, cond)[0]
+    want = {'trim_le_space': 'bad', 'trim_isspace': 'ok', 'trim_unsigned_le_space': 'ok', 'trim_helper': 'ok', 'trim_not_graph': 'bad'}
+    if tv != want:
+        ctx.broken('R-C16-10 self-check: verdicts on drivers/c16_positive.cpp are %s, expected %s' % (tv, want))
 
 
 # ============================================================================================
@@ -1937,6 +1965,230 @@ def check_buffers(ctx, tu):
         ctx.ok(R, 'xml::readXML call graph', 'no write through a self-allocated character buffer in the %d functions reachable from readXML' % len(fns),
                tu.fn_loc(fs[0]), nontrivial=False)
 
+# ============================================================================================
+#  R-C16-10: the backward trim of text content removes whitespace bytes only
+# ============================================================================================
+WS_BYTES = frozenset((9, 10, 11, 12, 13, 32))
+CTYPE_SETS = {
+    'isspace': WS_BYTES,
+    'isblank': frozenset((9, 32)),
+    'isdigit': frozenset(range(48, 58)),
+    'isalpha': frozenset(list(range(65, 91)) + list(range(97, 123))),
+    'isalnum': frozenset(list(range(48, 58)) + list(range(65, 91)) + list(range(97, 123))),
+    'isupper': frozenset(range(65, 91)),
+    'islower': frozenset(range(97, 123)),
+    'iscntrl': frozenset(list(range(0, 32)) + [127]),
+    'isprint': frozenset(range(32, 127)),
+    'isgraph': frozenset(range(33, 127)),
+    'ispunct': frozenset(c for c in range(33, 127) if not (48 <= c < 58 or 65 <= c < 91 or 97 <= c < 123)),
+    'isxdigit': frozenset(list(range(48, 58)) + list(range(65, 71)) + list(range(97, 103))),
+}
+
+
+class _NoByteValue(Exception):
+    pass
+
+
+def _byte_eval(tu, e, is_read, byte, env, depth=0):
+    """integer value of an expression over one byte of the buffer (the expression `is_read` recognises reads as that byte, held in a
+    plain `char`, signed on this target).  Pointer comparisons evaluate to true (the guard lets the loop run).  Raises _NoByteValue."""
+    if e is None or depth > 40:
+        raise _NoByteValue('expression too deep')
+    k = e.get('kind')
+    ty = (e.get('type', {}).get('desugaredQualType') or e.get('type', {}).get('qualType', '')).replace('const ', '').strip()
+
+    def conv(v):
+        if ty in ('unsigned char', 'uint8_t'):
+            return v & 0xff
+        if ty in ('char', 'signed char', 'int8_t'):
+            v &= 0xff
+            return v - 256 if v >= 128 else v
+        if ty == 'bool':
+            return 1 if v else 0
+        return v
+    if is_read(e):
+        return byte - 256 if byte >= 128 else byte
+    if k in ('ImplicitCastExpr', 'CStyleCastExpr', 'CXXStaticCastExpr', 'CXXFunctionalCastExpr', 'ParenExpr', 'ExprWithCleanups',
+             'MaterializeTemporaryExpr', 'ConstantExpr'):
+        ks = tu.kids(e)
+        if not ks:
+            raise _NoByteValue('empty cast')
+        return conv(_byte_eval(tu, ks[-1], is_read, byte, env, depth + 1))
+    if k in ('IntegerLiteral', 'CharacterLiteral'):
+        return int(e.get('value'))
+    if k == 'CXXBoolLiteralExpr':
+        return 1 if e.get('value') else 0
+    if k == 'DeclRefExpr':
+        d = e.get('referencedDecl', {}).get('id')
+        if d in env:
+            return env[d]
+        cv = tu.sd(e).get('cv')
+        if cv is not None:
+            return int(cv)
+        raise _NoByteValue('variable `%s`' % tu.show(e))
+    if k == 'UnaryOperator':
+        op = e.get('opcode')
+        v = _byte_eval(tu, tu.kids(e)[0], is_read, byte, env, depth + 1)
+        if op == '!':
+            return 0 if v else 1
+        if op == '-':
+            return -v
+        if op == '+':
+            return v
+        if op == '~':
+            return ~v
+        raise _NoByteValue('operator %s' % op)
+    if k == 'BinaryOperator':
+        op = e.get('opcode')
+        L, R = tu.kids(e)
+        pt = lambda x: (x.get('type', {}).get('qualType', '')).rstrip().endswith('*')
+        if op in ('<', '>', '<=', '>=', '==', '!=') and (pt(tu.strip(L, casts=True) or L) or pt(tu.strip(R, casts=True) or R)):
+            return 1
+        if op == '&&':
+            return 1 if (_byte_eval(tu, L, is_read, byte, env, depth + 1) and _byte_eval(tu, R, is_read, byte, env, depth + 1)) else 0
+        if op == '||':
+            return 1 if (_byte_eval(tu, L, is_read, byte, env, depth + 1) or _byte_eval(tu, R, is_read, byte, env, depth + 1)) else 0
+        a = _byte_eval(tu, L, is_read, byte, env, depth + 1)
+        b = _byte_eval(tu, R, is_read, byte, env, depth + 1)
+        import operator as _o
+        ops = {'<': _o.lt, '>': _o.gt, '<=': _o.le, '>=': _o.ge, '==': _o.eq, '!=': _o.ne, '+': _o.add, '-': _o.sub, '&': _o.and_,
+               '|': _o.or_, '^': _o.xor, '*': _o.mul}
+        if op not in ops:
+            raise _NoByteValue('operator %s' % op)
+        r = ops[op](a, b)
+        return (1 if r else 0) if isinstance(r, bool) else r
+    if k == 'ConditionalOperator':
+        c, a, b = tu.kids(e)[:3]
+        return _byte_eval(tu, a if _byte_eval(tu, c, is_read, byte, env, depth + 1) else b, is_read, byte, env, depth + 1)
+    if k == 'CallExpr':
+        sd, obj, args = tu.call_parts(e)
+        q = sd.get('q', '').split('::')[-1]
+        if q in CTYPE_SETS and len(args) == 1:
+            v = _byte_eval(tu, args[0], is_read, byte, env, depth + 1)
+            return 1 if v in CTYPE_SETS[q] else 0        # negative arguments (a sign-extended byte >= 0x80) are in no class
+        cf = tu.callee_fn(e)
+        if cf is not None and tu.body(cf) is not None and len(cf.get('params', [])) == len(args):
+            body = tu.kids(tu.body(cf))
+            if len(body) == 1 and body[0].get('kind') == 'ReturnStmt' and tu.kids(body[0]):
+                env2 = {}
+                for p_, a_ in zip(cf['params'], args):
+                    v = _byte_eval(tu, a_, is_read, byte, env, depth + 1)
+                    pt_ = p_['ct'].replace('const ', '').strip()
+                    if pt_ in ('unsigned char',):
+                        v &= 0xff
+                    elif pt_ in ('char', 'signed char'):
+                        v &= 0xff
+                        v = v - 256 if v >= 128 else v
+                    env2[p_['id']] = v
+                return _byte_eval(tu, tu.kids(body[0])[0], lambda x: False, byte, env2, depth + 1)
+        raise _NoByteValue('call of %s' % (sd.get('q') or '?'))
+    raise _NoByteValue('%s' % k)
+
+
+def trim_loops(tu, fns):
+    """(function, loop, cursor decl id, cursor name, condition) of every loop that steps a char pointer backwards while a condition
+    on the byte in front of it holds"""
+    out = []
+    for f in fns:
+        body = tu.body(f)
+        if body is None:
+            continue
+        for lp in tu.walk(body):
+            if lp.get('kind') not in ('WhileStmt', 'ForStmt'):
+                continue
+            ks = tu.kids(lp)
+            if lp.get('kind') == 'WhileStmt':
+                cond, rest = (ks[-2], [ks[-1]]) if len(ks) >= 2 else (None, [])
+            else:
+                # ForStmt children: init, condvar, cond, inc, body (absent ones are {} placeholders)
+                raw = lp.get('inner', [])
+                cond = raw[2] if len(raw) == 5 else None
+                rest = [x for x in raw[3:] if x.get('kind')] if len(raw) == 5 else []
+            if cond is None or not cond.get('kind'):
+                continue
+            decs = set()
+            for r_ in rest:
+                for x in tu.walk(r_):
+                    if x.get('kind') == 'UnaryOperator' and x.get('opcode') == '--':
+                        d = tu.ref_decl(tu.kids(x)[0])
+                        dn = tu.node(d) if d else None
+                        if dn is not None and re.match(r'^(const )?char \*', dn.get('type', {}).get('qualType', '')):
+                            decs.add((d, dn.get('name', '?')))
+            for d, nm in sorted(decs):
+                if any(_is_prev_read(tu, x, d) for x in tu.walk(cond)):
+                    out.append((f, lp, d, nm, cond))
+    return out
+
+
+def _is_prev_read(tu, x, d):
+    """x is `v[-1]` or `*(v - 1)` for the cursor declaration d"""
+    def cint(y):
+        y = tu.strip(y, casts=True)
+        if y is None:
+            return None
+        if y.get('kind') == 'IntegerLiteral':
+            return int(y.get('value'))
+        if y.get('kind') == 'UnaryOperator' and y.get('opcode') == '-':
+            v = cint(tu.kids(y)[0])
+            return -v if v is not None else None
+        return None
+    if x.get('kind') == 'ArraySubscriptExpr':
+        b, i = tu.kids(x)
+        return tu.ref_decl(b) == d and cint(i) == -1
+    if x.get('kind') == 'UnaryOperator' and x.get('opcode') == '*':
+        y = tu.strip(tu.kids(x)[0], casts=True)
+        if y is not None and y.get('kind') == 'BinaryOperator' and y.get('opcode') in ('-', '+'):
+            a, b = tu.kids(y)
+            c = cint(b)
+            return tu.ref_decl(a) == d and c is not None and (c == 1 if y['opcode'] == '-' else c == -1)
+    return False
+
+
+def trim_verdict(tu, d, cond):
+    """('ok'|'bad'|'und', text): the set of bytes the loop removes from the end of the content, against the whitespace bytes"""
+    T = set()
+    try:
+        for b in range(1, 256):
+            if _byte_eval(tu, cond, lambda x: x.get('kind') in ('ArraySubscriptExpr', 'UnaryOperator') and _is_prev_read(tu, x, d), b, {}):
+                T.add(b)
+    except _NoByteValue as ex:
+        return 'und', 'the trim condition `%s` is not a function of the preceding byte alone (%s)' % (tu.show(cond)[:80], ex)
+    extra = sorted(T - WS_BYTES)
+    text = sorted(c for c in extra if c >= 128 or 33 <= c <= 126)
+    if text:
+        hi = [c for c in text if c >= 128]
+        return 'bad', ('the trailing trim `%s` also removes %d non-whitespace byte value(s) (e.g. 0x%02x%s): content that ends in such a '
+                       'byte is returned shortened, not merely trimmed' % (
+                           tu.show(cond)[:80], len(text), text[0],
+                           '; every byte >= 0x80 compares as a negative `char`, so UTF-8 text loses its last character' if hi else ''))
+    return 'ok', 'removes %s only%s' % (sorted(T & WS_BYTES), (' (plus %d control byte values that XML text cannot contain)' % len(extra)) if extra else '')
+
+
+def check_trim(ctx, tu):
+    R = 'R-C16-10'
+    ctx.describe(R, 'the loop that trims the end of a text content steps backwards only over whitespace bytes: its condition, evaluated '
+                    'for each of the 255 non-NUL byte values (plain char is signed), is true for no printable or >= 0x80 byte')
+    fs = tu.fns(q='rkcommon::xml::readXML')
+    if len(fs) != 1:
+        ctx.broken('%s: readXML not found' % R)
+        return
+    fns = [f for f in reachable_fns(tu, fs[0]) if tu.fn_file(f).startswith('rkcommon/')]
+    loops = trim_loops(tu, fns)
+    for f, lp, d, nm, cond in loops:
+        inst = '%s: backward scan of `%s`' % (f['q'].replace('rkcommon::', ''), nm)
+        v, why = trim_verdict(tu, d, cond)
+        if v == 'ok':
+            ctx.ok(R, inst, why, tu.loc(lp))
+        elif v == 'bad':
+            ctx.violation(R, inst, why, tu.loc(lp), key='%s|%s|%s|trims-non-whitespace' % (R, tu.fn_file(f), f['q'].replace('rkcommon::', '')))
+        else:
+            ctx.undecided(R, inst, why, tu.loc(lp))
+    if not loops:
+        # legitimate (content trimmed through std::string members); the rule itself is exercised on drivers/c16_positive.cpp on every run
+        ctx.ok(R, 'xml::readXML call graph', 'no backward byte scan in the %d functions reachable from readXML' % len(fns), tu.fn_loc(fs[0]),
+               nontrivial=False)
+
+
 def run(ctx):
     ctx.assume('the buffer handed to parseXML is NUL-terminated (established by R-C16-3 for readXML)')
     ctx.assume('library character predicates (isalpha, isdigit, isspace) return false for the NUL byte')
@@ -1949,6 +2201,7 @@ def run(ctx):
     check_outparams(ctx, tu)
     check_exception_discipline(ctx, tu)
     check_buffers(ctx, tu)
+    check_trim(ctx, tu)
     check_positive_examples(ctx)
     from rkstatic import selftest
     selftest.run(ctx)
